@@ -223,6 +223,94 @@ def t_xl_batch(item):
     return worst
 
 
+# ------------------------------------------------------------------ (g) rank-m kernel
+
+
+def t_kernel(item):
+    """The rank-m kernel update of the KSA scheme (J. Chem. Theory Comput. 2020, 16, 3628, alg. 3) replayed from the
+    implementation's OWN intermediate quantities: the harness records the Krylov directions v_k handed to the response
+    routine and the responses it returns (module-level wrappers, no source hook), recomputes the least-squares
+    coefficients min |r - sum_k a_k w_k| with w_k = response(v_k) - v_k in numpy, and compares -sum_k a_k v_k with the
+    returned second time derivative of the auxiliary density; the directions must be orthonormal with v_1 || r, and the
+    number of directions built must be the one the stated stop rule gives (max_rank, or the first rank whose relative
+    fit error is <= err_threshold for every molecule of the batch)."""
+    import torch
+
+    import seqm.dynamics.xlbomd as X
+
+    names, method, rank, thr, T_el, seed = item
+    mols = [M.apply(M.get(n), M.generic_rot(seed + i)) for i, n in enumerate(names)]
+    p = sp.make_params(method, eps=1e-11)
+    molecule, es = sp.build(mols, p)
+    molecule.verbose = False
+    es(molecule)
+    if bool(es.notconverged.any()):
+        return {"excluded": "scf not converged"}
+    Ds = molecule.dm.clone()
+    n = Ds.shape[-1]
+    pert = 0.02 * torch.sin(1.0 + torch.arange(n * n, dtype=Ds.dtype)).reshape(1, n, n)
+    pert = 0.5 * (pert + pert.transpose(1, 2))
+    live = (Ds.abs().sum(-1) > 0).to(Ds.dtype)  # basis functions that exist (no hydrogen p rows, no padding)
+    P = Ds + pert * live.unsqueeze(-1) * live.unsqueeze(-2)
+    rec = {"v": [], "po": []}
+    oG, oC = X.G, X.Canon_DM_PRT
+
+    def G2(*a, **k):
+        rec["v"].append(a[2].detach().clone())
+        return oG(*a, **k)
+
+    def C2(*a, **k):
+        r = oC(*a, **k)
+        rec["po"].append(r.detach().clone())
+        return r
+
+    X.G, X.Canon_DM_PRT = G2, C2
+    try:
+        es(molecule, P0=P.clone(), dm_prop="XL-BOMD", xl_bomd_params={"k": 5, "max_rank": rank, "err_threshold": thr, "T_el": T_el})
+    finally:
+        X.G, X.Canon_DM_PRT = oG, oC
+    d2 = sp.to_np(molecule.dP2dt2)
+    D = sp.to_np(molecule.dm)
+    Pn = sp.to_np(P)
+    prob = []
+    nb = len(rec["v"])
+    if nb != len(rec["po"]) or nb == 0:
+        return {"problems": [f"recorded {nb} directions and {len(rec['po'])} responses"], "built": nb}
+    V = np.stack([sp.to_np(v) for v in rec["v"]], -1)  # (B, n, n, m)
+    W = np.stack([sp.to_np(po) - sp.to_np(v) for po, v in zip(rec["po"], rec["v"])], -1)
+    worst = {"u": 0.0, "orth": 0.0, "v1": 0.0}
+    err_by_rank = np.zeros((len(mols), nb))
+    for b in range(len(mols)):
+        r = D[b] - Pn[b]
+        rn = np.linalg.norm(r)
+        Vb = V[b].reshape(-1, nb)
+        Wb = W[b].reshape(-1, nb)
+        worst["orth"] = max(worst["orth"], float(np.abs(Vb.T @ Vb - np.eye(nb)).max()))
+        worst["v1"] = max(worst["v1"], float(np.abs(Vb[:, 0] * rn - r.reshape(-1)).max()))
+        for m in range(1, nb + 1):
+            a = np.linalg.lstsq(Wb[:, :m], r.reshape(-1), rcond=None)[0]
+            err_by_rank[b, m - 1] = np.linalg.norm(Wb[:, :m] @ a - r.reshape(-1)) / rn
+        u = -(Vb @ a).reshape(r.shape)
+        worst["u"] = max(worst["u"], float(np.abs(u - d2[b]).max()) / (1e-30 + float(np.abs(u).max())))
+    # stop rule: directions are added while fewer than max_rank exist and the batch-wide fit error exceeds the threshold
+    expect = rank
+    for m in range(1, nb + 1):
+        if err_by_rank[:, m - 1].max() <= thr:
+            expect = m
+            break
+    marginal = thr > 0 and bool((np.abs(err_by_rank.max(0) - thr) < 0.05 * thr).any())  # a fit error within 5% of the threshold: not judged
+    if nb != min(expect, rank) and not marginal:
+        prob.append(f"{nb} Krylov directions were built, the stop rule (max_rank {rank}, err_threshold {thr}, fit errors {np.round(err_by_rank.max(0), 4).tolist()}) gives {min(expect, rank)}")
+    # healthy tree: u agrees to 1e-15 relative, orthonormality 1e-15, v1 1e-17
+    if worst["u"] > 1e-8:
+        prob.append(f"returned d2P/dt2 differs from the least-squares combination of its own Krylov directions by {worst['u']:.2e} (relative)")
+    if worst["orth"] > 1e-8:
+        prob.append(f"Krylov directions are not orthonormal ({worst['orth']:.2e})")
+    if worst["v1"] > 1e-8:
+        prob.append(f"first Krylov direction is not the normalised residual D[P] - P ({worst['v1']:.2e})")
+    return {"problems": prob, "built": nb, "worst": worst, "fit": np.round(err_by_rank.max(0), 6).tolist()}
+
+
 # ------------------------------------------------------------------ (d)
 
 
@@ -486,6 +574,29 @@ def run(chk, tier, seed):
         # the chemical-potential solve of Fermi_Q stops on a batch-wide criterion); bounds are >= 170x above that
         if r["Etot"] > 1e-6 or r["ent"] > 1e-6 or r["force"] > 1e-6 or r["dm"] > 1e-7:
             chk.violation(desc, f"{key}: molecule in a padded batch differs from the same evaluation alone: dE={r['Etot']:.2e} dS_el={r['ent']:.2e} dF={r['force']:.2e} dD={r['dm']:.2e}", replay={"part": "c'", "item": list(it)})
+    # ---- (g) rank-m kernel update replayed from its own Krylov directions
+    ranks = [1, 2, 3] if tier == "quick" else [1, 2, 3, 4, 6]
+    items = []
+    for names in ([["H2O"], ["CH4"], ["CH4", "H2O"]] if tier == "quick" else [["H2O"], ["CH4"], ["NH3"], ["H2CO"], ["CH4", "H2O"], ["H2O", "CH4"], ["H2CO", "NH3"]]):
+        for rank in ranks:
+            for thr in (0.0, 0.2, 0.02):
+                for T_el in ([1500] if tier == "quick" else [300, 1500, 13000]):
+                    items.append((names, "AM1", rank, thr, T_el, seed))
+    res = pmap(t_kernel, items, chunk=2, timeout=600, progress="C09g kernel")
+    for it, r in zip(items, res):
+        key = f"g|{'+'.join(it[0])}|rank={it[2]}|thr={it[3]}|T_el={it[4]}"
+        desc = {"part": "g", "molecules": "+".join(it[0]), "rank": it[2], "err_threshold": it[3], "T_el": it[4]}
+        if is_timeout(r) or is_error(r):
+            chk.violation(desc, f"{key}: {r}", replay={"part": "g", "item": list(it)})
+            continue
+        if "excluded" in r:
+            chk.excluded += 1
+            continue
+        chk.case(key, outcome=f"{r['built']}|{r.get('fit')}")
+        chk.traces += 1
+        chk.transitions += r["built"]
+        for pr in r["problems"]:
+            chk.violation(desc, f"{key}: {pr}", replay={"part": "g", "item": list(it)})
     # ---- (d)
     items = []
     kd = [3, 6, 9] if tier == "quick" else ks
@@ -581,6 +692,8 @@ def replay(payload):
         r = t_fixed_point_energy(tuple(it))
         print(r)
         return r.get("dE", 1) <= 1e-8 and r.get("dF", 1) <= 1e-6
+    elif part == "g":
+        r = t_kernel(tuple(it))
     elif part == "d":
         r = t_stationary(tuple(it))
         print(r)
